@@ -13,6 +13,7 @@ from harness.core import Family, Violation, Reject
 from harness import blocks, expr
 
 PROPERTY_ID = 'C02'
+# (solver objects are configured before the text is parsed, after it, or get the text through the constructor: layout.config)
 RULE = ('BlockSpecs of four families: certified contractions (affine and mildly non-linear rows: sqrt, abs, log, '
         'x/(1+|x|), exp, min, max, a user function), 1-8 simultaneous variables, lags, exogenous lists, constants, '
         'aliases and leaf (decorative) variables, tolerance 1e-3..1e-10 via the text or ParameterErrorTolerance, cap '
